@@ -44,7 +44,7 @@ def base(ctx, zombie=False):
 
 
 ARGV_Q = [[], [0], [2], [1, 0], [0, 0], [2, 2], [0, 1, 0], [2, 1, 2]]
-ARGV_T = ARGV_Q + [[4], [3, 3], [0, 0, 0], [4, 0, 4], [1, 1, 1], [3, 2, 3]]
+ARGV_T = ARGV_Q + [[4], [6], [3, 3], [5, 5], [0, 0, 0], [4, 0, 4], [1, 1, 1], [3, 2, 3], [4, 4, 4], [1, 0, 1, 0]]
 
 
 @harness("C12.cmdline", quick=[dict(lens=l) for l in ARGV_Q], thorough=[dict(lens=l) for l in ARGV_T])
@@ -96,7 +96,7 @@ def cmdline_witness(ctx, i):
     ctx.prove(e == wante, "environ-map", detail=f"{len(e)} entries")
 
 
-@harness("C12.title", quick=[dict(n=n, trailing_nul=t) for n in (1, 3, 5) for t in (False, True)], thorough=[dict(n=n, trailing_nul=t) for n in (1, 2, 3, 5, 7) for t in (False, True)])
+@harness("C12.title", quick=[dict(n=n, trailing_nul=t) for n in (1, 3, 5) for t in (False, True)], thorough=[dict(n=n, trailing_nul=t) for n in (1, 2, 3, 5, 7, 9, 12) for t in (False, True)])
 def title(ctx, n, trailing_nul):
     """a process that overwrote its title: one blob without NUL separators -> split on spaces"""
     k = base(ctx)
@@ -167,7 +167,7 @@ def environ(ctx, shapes):
 
 
 @harness("C12.link", quick=[dict(which=w, n=n, tail=t) for w in ("cwd", "exe") for n in (0, 2, 11) for t in (False, True)],
-         thorough=[dict(which=w, n=n, tail=t) for w in ("cwd", "exe") for n in (0, 1, 2, 10, 11, 12) for t in (False, True)])
+         thorough=[dict(which=w, n=n, tail=t) for w in ("cwd", "exe") for n in (0, 1, 2, 9, 10, 11, 12, 16, 24) for t in (False, True)])
 def link(ctx, which, n, tail):
     """exe()/cwd(): the link target cut at the first NUL, minus a stale ' (deleted)' suffix"""
     k = base(ctx)
@@ -217,7 +217,7 @@ def withheld(ctx, which, err):
     ctx.prove(T(again, got) and n2 == n1, "exe-cached")
 
 
-@harness("C12.name", quick=[dict(clen=15, blen=b) for b in (14, 15, 17)] + [dict(clen=14, blen=16)], thorough=[dict(clen=c, blen=b) for c in (14, 15) for b in (13, 15, 16, 20)])
+@harness("C12.name", quick=[dict(clen=15, blen=b) for b in (14, 15, 17)] + [dict(clen=14, blen=16)], thorough=[dict(clen=c, blen=b) for c in (13, 14, 15) for b in (12, 13, 14, 15, 16, 20, 30)])
 def name(ctx, clen, blen):
     """name(): the kernel's name, except that a name truncated at 15 bytes is replaced by basename(cmdline()[0]) when that starts with it"""
     k = base(ctx)
